@@ -172,7 +172,7 @@ CHECKS = {
         "technique": "property-based testing (rapid) of generated actor scripts in testing/synctest bubbles; history-invariant oracle",
         "rule": ("kinds pipe (scripted plans: buffer in {0,1,2,5}, 1-3 senders, 1-24 steps incl. tryburst = all senders TrySend at once, contexts that end by cancel or - 'deadlines' plans - by deadline on the fake clock and may be reused after they ended, + drain epilogue) and pipe-storm (500-3000 short-lived pipes per case on real goroutines: 1-4 values then Close after a swept busy delay, blocking or ended-context-polling consumer; every storm case counts as non-trivial) and pipe-parked (real clock, own process: with one Send parked, TrySend / TrySend under an ended context / Send with a 5 ms timeout / the receiver's Close each return within 5 s); pipe plans: non-trivial = Close called while accepted values were still buffered (buffer >= 1), or Sends of two sender actors overlapped, or a Send was blocked when the receiver closed; distinct = distinct plan JSON; R=5/20 executions each"),
         "assumptions": ["testing/synctest durable-block detection", "logical stamps taken by the actors bracket the library calls", "rapid v1.3.0; go1.26.8"],
-        "jobs": [{"pkg": "c10pipe", "run": "TestPipeParked", "kinds": ["pipe-parked"], "scale_thorough": 4, "shards_thorough": 2},
+        "jobs": [{"pkg": "c10pipe", "run": "TestPipeParked|TestPipeSenderCollected", "kinds": ["pipe-parked", "pipe-gc"], "scale_thorough": 4, "shards_thorough": 2},
                  {"pkg": "c10pipe", "run": "TestPipe$|TestPipeStorm", "kinds": ["pipe", "pipe-storm"], "scale_thorough": 8, "shards_thorough": 16, "replay_reps": 200},
                  {"pkg": "c10pipe", "goarch": "386", "run": "TestPipe$|TestPipeStorm", "kinds": ["pipe", "pipe-storm"], "scale_quick": 0.1, "scale_thorough": 1, "shards_thorough": 2},
                  {"pkg": "c10pipe", "race": True, "run": "TestPipe$|TestPipeStorm", "kinds": ["pipe", "pipe-storm"], "scale_quick": 0.15, "scale_thorough": 2, "shards_thorough": 4, "replay_reps": 20}],
